@@ -108,7 +108,7 @@ func (f *impFn) killGuards(lhs string) {
 
 // ---------------------------------------------------------------------------------------------- expressions
 
-func paren(s string) string {
+func parenImp(s string) string {
 	if strings.ContainsAny(s, " \n") && !(strings.HasPrefix(s, "(") && matchingParen(s)) && !(strings.HasPrefix(s, "[") && strings.HasSuffix(s, "]") && strings.Count(s, "[") == 1) {
 		return "(" + s + ")"
 	}
@@ -185,14 +185,14 @@ func (f *impFn) expr(e ast.Expr, want *ity, c *ictx) (string, *ity) {
 			if !f.nonNil[exprText(v.X)] {
 				p.die(e, "dereference of %s is not guarded by a nil test", exprText(v.X))
 			}
-			xs, xt = "(deref "+paren(xs)+")", xt.elem
+			xs, xt = "(deref "+parenImp(xs)+")", xt.elem
 		}
 		if xt.k != "struct" {
 			p.die(e, "selector on %v", xt)
 		}
 		for _, fl := range p.structs[xt.name] {
 			if fl.name == v.Sel.Name {
-				return paren(xs) + "." + fl.name, fl.ty
+				return parenImp(xs) + "." + fl.name, fl.ty
 			}
 		}
 		p.die(e, "no field %s", v.Sel.Name)
@@ -205,7 +205,7 @@ func (f *impFn) expr(e ast.Expr, want *ity, c *ictx) (string, *ity) {
 		if it.k != "int" {
 			p.die(e, "index type")
 		}
-		return "index " + paren(xs) + " " + paren(is), xt.elem
+		return "index " + parenImp(xs) + " " + parenImp(is), xt.elem
 	case *ast.SliceExpr:
 		if v.Low != nil || v.High != nil || v.Max != nil {
 			p.die(e, "slice expression with bounds")
@@ -222,13 +222,13 @@ func (f *impFn) expr(e ast.Expr, want *ity, c *ictx) (string, *ity) {
 			if xt.k != "bool" {
 				p.die(e, "! on %v", xt)
 			}
-			return "!" + paren(xs), tyBool
+			return "!" + parenImp(xs), tyBool
 		case token.SUB:
 			xs, xt := f.expr(v.X, tyInt, c)
 			if xt.k != "int" {
 				p.die(e, "- on %v", xt)
 			}
-			return "-" + paren(xs), tyInt
+			return "-" + parenImp(xs), tyInt
 		case token.AND:
 			if cl, ok := v.X.(*ast.CompositeLit); ok { // fresh object: by value
 				return f.expr(cl, nil, c)
@@ -309,21 +309,21 @@ func (f *impFn) binary(v *ast.BinaryExpr, c *ictx) (string, *ity) {
 		if v.Op == token.LAND {
 			op = "&&"
 		}
-		return paren(xs) + " " + op + " " + paren(ys), tyBool
+		return parenImp(xs) + " " + op + " " + parenImp(ys), tyBool
 	case token.EQL, token.NEQ:
 		if id, ok := v.Y.(*ast.Ident); ok && id.Name == "nil" {
 			xs, xt := f.expr(v.X, nil, c)
 			switch xt.k {
 			case "ptr":
 				if v.Op == token.EQL {
-					return paren(xs) + ".isNone", tyBool
+					return parenImp(xs) + ".isNone", tyBool
 				}
-				return paren(xs) + ".isSome", tyBool
+				return parenImp(xs) + ".isSome", tyBool
 			case "error":
 				if v.Op == token.EQL {
-					return paren(xs) + " == Err.nil", tyBool
+					return parenImp(xs) + " == Err.nil", tyBool
 				}
-				return paren(xs) + " != Err.nil", tyBool
+				return parenImp(xs) + " != Err.nil", tyBool
 			}
 			p.die(v, "comparison of %v with nil (slices / maps: not in the by-value subset)", xt)
 		}
@@ -336,7 +336,7 @@ func (f *impFn) binary(v *ast.BinaryExpr, c *ictx) (string, *ity) {
 		if v.Op == token.NEQ {
 			op = "!="
 		}
-		return paren(xs) + " " + op + " " + paren(ys), tyBool
+		return parenImp(xs) + " " + op + " " + parenImp(ys), tyBool
 	case token.LSS, token.LEQ, token.GTR, token.GEQ:
 		xs, xt := f.expr(v.X, tyInt, c)
 		ys, yt := f.expr(v.Y, tyInt, c)
@@ -351,7 +351,7 @@ func (f *impFn) binary(v *ast.BinaryExpr, c *ictx) (string, *ity) {
 		if xt.k != "int" || yt.k != "int" {
 			p.die(v, "%s on %v, %v", v.Op, xt, yt)
 		}
-		return paren(xs) + " " + v.Op.String() + " " + paren(ys), tyInt
+		return parenImp(xs) + " " + v.Op.String() + " " + parenImp(ys), tyInt
 	}
 	p.die(v, "binary operator %s", v.Op)
 	return "", nil
@@ -380,7 +380,7 @@ func (f *impFn) call(v *ast.CallExpr, want *ity, c *ictx) (string, *ity) {
 		t := p.goType(at)
 		xs, xt := f.expr(v.Args[0], nil, c)
 		if t.eq(tyBytes) && xt.k == "string" {
-			return "bytesOfString " + paren(xs), tyBytes
+			return "bytesOfString " + parenImp(xs), tyBytes
 		}
 		p.die(v, "conversion %v(%v)", t, xt)
 	}
@@ -392,7 +392,7 @@ func (f *impFn) call(v *ast.CallExpr, want *ity, c *ictx) (string, *ity) {
 				p.die(v, "Sum argument")
 			}
 			c.uses.H = true
-			return "Hash.Sum H " + paren(xs) + " " + paren(as), tyBytes
+			return "Hash.Sum H " + parenImp(xs) + " " + parenImp(as), tyBytes
 		}
 		p.die(v, "hash method %s in expression position", m)
 	}
@@ -402,7 +402,7 @@ func (f *impFn) call(v *ast.CallExpr, want *ity, c *ictx) (string, *ity) {
 		if xt.k != "slice" && xt.k != "string" {
 			p.die(v, "len of %v", xt)
 		}
-		return "len " + paren(xs), tyInt
+		return "len " + parenImp(xs), tyInt
 	case "make":
 		t := p.goType(v.Args[0])
 		if t.k == "map" && len(v.Args) == 1 {
@@ -413,7 +413,7 @@ func (f *impFn) call(v *ast.CallExpr, want *ity, c *ictx) (string, *ity) {
 			if nt.k != "int" {
 				p.die(v, "make length")
 			}
-			return "makeBytes " + paren(ns), t
+			return "makeBytes " + parenImp(ns), t
 		}
 		p.die(v, "make(%v, …)", t)
 	case "append":
@@ -432,13 +432,13 @@ func (f *impFn) call(v *ast.CallExpr, want *ity, c *ictx) (string, *ity) {
 			}
 			els = append(els, as)
 		}
-		return paren(xs) + " ++ [" + strings.Join(els, ", ") + "]", xt
+		return parenImp(xs) + " ++ [" + strings.Join(els, ", ") + "]", xt
 	case "fmt.Errorf":
 		if len(v.Args) == 2 {
 			if bl, ok := v.Args[0].(*ast.BasicLit); ok && bl.Kind == token.STRING && strings.Count(bl.Value, "%") == 1 && strings.Contains(bl.Value, "%w") {
 				es, et := f.expr(v.Args[1], tyErr, c)
 				if et.k == "error" {
-					return "Err.wrapf " + bl.Value + " " + paren(es), tyErr
+					return "Err.wrapf " + bl.Value + " " + parenImp(es), tyErr
 				}
 			}
 		}
